@@ -1333,7 +1333,7 @@ def regex_sites(f):
     out = []
     for v in f.walk():
         if v.get('k') == 'Var' and 'basic_regex' in (v.get('t') or '') and v.get('c'):
-            lit = next((x for x in walk(v['c'][0]) if x.get('k') == 'Str'), None)
+            lit = next((x for x in walk_x(f, v['c'][0]) if x.get('k') == 'Str'), None)     # also a pattern held in a named constant
             uses = [c for c in f.walk() if c.get('k') == 'Call' and (c.get('callee') or '').startswith(('std::regex_match', 'std::regex_search', 'std::regex_replace'))
                     and any(r.get('k') == 'Ref' and r.get('d') == v.get('d') for r in walk(c))]
             out.append((v, lit.get('v') if lit is not None else None, uses))
@@ -1507,4 +1507,32 @@ def rule_arm_agreement(F, rep, rid, pred, where_txt):
             rep.fail(rid, '%s|%s' % (g.short.split('::')[-1], render(a)[:50]), g.where(a), '%s: under `%s` the entity receives `%s`, otherwise `%s`: %s passed in one arm only' % (
                 g.short, render(role(i_, 'cond'))[:40], render(a)[:70], render(b)[:70], ', '.join(only_a + only_b)))
     rep.ok(rid, 'scan', None, '%d pairs of sibling calls compared in %s (fixture: 1 of 2 functions flagged, as expected)' % (n, where_txt))
+
+
+def walk_x(f, e, depth=0):
+    """walk(e) that also descends into the initialiser of every local that is defined once (named sub-expressions): the nodes that make up
+    the VALUE of e, however many locals it was spread over."""
+    for x in walk(e):
+        yield x
+        if x.get('k') == 'Ref' and x.get('dk') in ('local', 'slocal') and depth < 5:
+            i_ = single_def(f, x.get('d'))
+            if i_ is not None:
+                for y in walk_x(f, i_, depth + 1):
+                    yield y
+
+
+def value_of(f, e, depth=0):
+    """e with parentheses/casts stripped and, when it is a local that is defined once, replaced by its initialiser (repeatedly)."""
+    while e is not None and depth < 6:
+        if e.get('k') in ('Paren', 'Cast', 'Temp', 'Bind') and len(e.get('c', [])) == 1:
+            e = e['c'][0]
+            continue
+        if e.get('k') == 'Ref' and e.get('dk') in ('local', 'slocal'):
+            i_ = single_def(f, e.get('d'))
+            if i_ is not None:
+                e = i_
+                depth += 1
+                continue
+        break
+    return e
 
